@@ -135,6 +135,17 @@ def eq_tol(q):
     return f
 
 
+def eq_line_spacing(a, b):
+    """A number of lines reads back as a number (1e-5 quantum); a Length reads back as a Length (1/100 pt quantum): the two kinds are
+    not comparable with each other."""
+    if a is None or b is None:
+        return a is b
+    from pptx.util import Length
+    if isinstance(a, Length) != isinstance(b, Length):
+        return False
+    return abs(float(a) - float(b)) <= (CPT_Q if isinstance(a, Length) else FRAC_Q)
+
+
 def eq_angle(a, b):
     if a is None or b is None:
         return a is b
@@ -195,7 +206,7 @@ def build_catalog():
     entry("p.level", "p", "level", [I(i) for i in range(9)], [I(9), I(-1), S("1")])
     entry("p.line_spacing", "p", "line_spacing", lambda r: r.choice([F(1.0), F(1.5), F(0.9), F(2.0), F(0.0), F(132.0), F(1.23456), PT(12), PT(20.5), PT(0), PT(1584), NONE,
                                                                     I(2), I(1), I(3)]),     # "A numeric value, e.g. 2 or 1.5": an int is a number of lines too
-          [S("x"), F(132.5), F(-0.1), PT(1585)], eq_tol(max(FRAC_Q, CPT_Q)), none="none")
+          [S("x"), F(132.5), F(-0.1), PT(1585)], eq_line_spacing, none="none")
     for a in ("space_before", "space_after"):
         entry("p." + a, "p", a, lambda r: r.choice([PT(0), PT(6), PT(12.5), PT(1584), PT(0.01), NONE]), [S("x"), PT(1585), PT(-1)], eq_tol(CPT_Q), none="none")
     # font
